@@ -111,6 +111,13 @@ fn find_responder_by_call_index(
     })
 }
 
+#[cfg(unimock_verif)]
+impl DynInputMatcher {
+    pub(crate) fn verif_has_matcher(&self) -> bool {
+        self.dyn_matching_fn.is_some()
+    }
+}
+
 #[cfg(test)]
 mod tests {
     use crate::alloc::vec;
